@@ -9,7 +9,7 @@ TRUST = ("Trusted base: rustc/std, the sha2 crate, the simulator (its PRNG, CBOR
 
 CHECKS = {
  "C20": ("exploration", "§10 C20",
-   "2-8 (thorough: up to 16) shuttle threads each run 1-4 operations (each exactly one library call) drawn from {format, format_flat, tree_format, diagnostic_annotated, hex, register_tags, format-context read, known-value / function / parameter registry lookups, dcbor-level annotated diagnostic, codec/digest of an Arc-shared envelope, register_tags-then-ur_string, custom-tag registration then format, holding the registry lock while another thread formats, summaries / Display of responses (incl. early failure), requests, events and expressions, registration of own entries in the parameter / function / known-value registries followed by look-up, configuring the global context as flat, registering an application tag in dcbor's registry before first use} on three envelopes that include edge-of-type integers, a malformed embedded envelope, a map leaf holding a PublicKeys value and seventy levels of wrapping, over the real registry code, every execution starting from uninitialised registries, under seeded Random and PCT(1-3) schedules. Oracles: completion (deadlock, re-entrant acquisition, poisoned lock, panic), every formatting result equals a text the call returns alone, linearizability of results against a monotone three-state model (S0 nothing initialised / S1 context initialised / S2 register_tags done) using invoke/return sequence stamps, identical digest/bytes for the shared envelope, ur_string after own register_tags never panics.",
+   "2-8 (thorough: up to 16) shuttle threads each run 1-4 operations (each exactly one library call) drawn from {format, format_flat, tree_format, diagnostic_annotated, hex, register_tags, format-context read, known-value / function / parameter registry lookups, dcbor-level annotated diagnostic, codec/digest of an Arc-shared envelope, register_tags-then-ur_string, custom-tag registration then format, holding the registry lock while another thread formats, summaries / Display of responses (incl. early failure), requests, events and expressions, registration of own entries in the parameter / function / known-value registries followed by look-up, configuring the global context as flat, registering an application tag in dcbor's registry before first use, registering a function and a parameter that have numbers but no names, format_opt(None)} on three envelopes that include edge-of-type integers, a malformed embedded envelope, a map leaf holding a PublicKeys value and seventy levels of wrapping, over the real registry code, every execution starting from uninitialised registries, under seeded Random and PCT(1-3) schedules. Oracles: completion (deadlock, re-entrant acquisition, poisoned lock, panic), every formatting result equals a text the call returns alone, linearizability of results against a monotone three-state model (S0 nothing initialised / S1 context initialised / S2 register_tags done) using invoke/return sequence stamps, identical digest/bytes for the shared envelope, ur_string after own register_tags never panics.",
    "deterministic schedule simulation (shuttle Random/PCT) with linearizability check against a 3-state sequential model"),
  "C17": ("exploration", "§10 C17",
    "Salting operations (add_salt, add_salt_with_len around 8, add_salt_in_range with lower bounds around 8, add_assertion_salted true/false, the _using variants, add_salt_instance, salted batches, decorated assertions whose core is obscured or that carry assertions on two levels, lengths and ranges around 65536, two further parties salting the same envelope on threads of their own) on envelopes of serialized size 1 B - 10 KB (padding steers sizes across the rule's 64/160/320-byte switch points), every draw coming from the simulator-owned library RNG stream, plus hostile boundary draws through add_salt_using. Oracles: subject and prior assertions unchanged, exactly one 'salt' assertion of documented length, short requests refused, salted assertion found by predicate and carrying exactly one salt, independent saltings differ in digest, unsalted add deterministic.",
@@ -21,7 +21,7 @@ CHECKS = {
    "Vendors contribute attachments (payloads of any shape from seeded histories, vendor, optional conformsTo) and types to replicas in different orders with duplicates; readers query all / by vendor / by conformsTo / both and the single-result form, and load the Attachments container (also onto an envelope that already carries its attachments), validate single assertions directly, and query after the 'attachment' predicate or a type object was obscured; one attachment assertion is altered in flight (vendor removed, duplicated, not text; payload unwrapped; conformsTo duplicated; an assertion hung on the object or on the assertion itself). Oracles: result set equals the model's distinct (payload digest, vendor, conformsTo) triples filtered the same way; single-result errors for none/several; malformed reported invalid; type checks true exactly for added types.",
    "deterministic simulation of contribution orders and malformed-in-flight attachments vs. set model"),
  "C01": ("exploration", "§10 C01",
-   "Seeded search over operation histories (3-30 ops: construct, add/remove/replace through every equivalent entry point incl. the batch forms, wrap, obscure with every action through all eighteen elide entry points, decrypt/uncompress, encode->decode through eight transport forms; assertions with colliding digest prefixes, typed vectors, 8-20 assertions, nesting up to 24 levels, leaves up to 70 KB) executed in lock-step against an independent model that computes every digest from the draft's rules with sha2; every position, accessor and walk order compared after every step.",
+   "Seeded search over operation histories (3-30 ops: construct, add/remove/replace through every equivalent entry point incl. the batch forms, wrap, obscure with every action through all eighteen elide entry points, decrypt/uncompress, encode->decode through eight transport forms; salts of known bytes and attachments built by the typed extension calls, target lists with repeats, assertions with colliding digest prefixes, typed vectors, 8-20 assertions, nesting up to 24 levels, leaves up to 70 KB) executed in lock-step against an independent model that computes every digest from the draft's rules with sha2; every position, accessor and walk order compared after every step.",
    "deterministic simulation of seeded operation histories vs. executable reference model (spec digests)"),
  "C02": ("exploration", "§10 C02",
    "Seeded histories in which holders obscure documents (both modes, all three actions, target sets incl. absent/multi-position/root, already-obscured inputs; whole-envelope elide/encrypt/compress) under the simulator's nonce stream; root digest and a parallel positional walk of before/after checked after every obscuring step.",
